@@ -28,6 +28,16 @@ evaluation answers `skip` (invalid subject, invalid mask, negative argument, non
 subject for the case converters); the harness prints `skip` in exactly these situations
 (after making the call, so that a panic is still seen).
 
+Header `@ C17 H`: HISTORY — every op line names its own subject: `on <hex> <op …>` with the
+ops above, plus `on <hex> removepanic <hexset> <nth>`: `RemoveRunes` with a predicate that
+panics at its `nth` invocation (recovered by the caller) — answer `panic-recovered` when
+`1 ≤ nth ≤ RuneCount(s)` (the predicate is invoked exactly once per rune of the range loop),
+otherwise the ordinary result.  The functions are pure: the model answers every line from its
+own arguments only, whatever came before (earlier long results, a recovered panic); the
+harness additionally keeps every earlier result with an independent copy (results ledger).
+Subjects above 512 bytes are evaluated as in the large stream (`skip` where that has no
+linear evaluation).
+
 Header `@ C17 utf8`: the exhaustive tie of the shared UTF-8 prelude to Go's `unicode/utf8`
 (no call into /repo; see `Golib/Model/C17Utf8Tie.lean` for its operations).
 -/
@@ -106,6 +116,27 @@ def runOpL (s : List Nat) (ok : Bool) (rs : List Int) (ascii : Bool) (ts : List 
     | none => "bad-op"
   | _ => "bad-op"
 
+/-- One line of a history case. -/
+def runOpH (ts : List String) : String :=
+  match ts with
+  | "on" :: h :: rest =>
+    match unhex h with
+    | none => "bad-op"
+    | some s =>
+      match rest with
+      | ["removepanic", set, nth] =>
+        match unhex set, nth.toNat? with
+        | some set, some nth =>
+          if 1 ≤ nth ∧ nth ≤ runeCount s then "panic-recovered"
+          else if s.length ≤ 512 then
+            (let q := runes set; showRes (removeRunes s fun r => q.contains r))
+          else runOpL s (valid s) (runes s) (s.all (· < 0x80)) ["remove", hex set]
+        | _, _ => "bad-op"
+      | _ =>
+        if s.length ≤ 512 then runOp s rest
+        else runOpL s (valid s) (runes s) (s.all (· < 0x80)) rest
+  | _ => "bad-op"
+
 /-- Entry point of the C17 section of the oracle: header tokens after `@ C17`. -/
 def runCase (hdr : List String) (ops : List String) : List String :=
   match hdr with
@@ -121,6 +152,7 @@ def runCase (hdr : List String) (ops : List String) : List String :=
       let ascii := s.all (· < 0x80)
       "ok" :: ops.map fun l => runOpL s ok rs ascii (toks l)
     | none => "bad-op" :: ops.map fun _ => "bad-op"
+  | ["H"] => "ok" :: ops.map fun l => runOpH (toks l)
   | ["utf8"] => Tie.runCase ops
   | _ => "bad-op" :: ops.map fun _ => "bad-op"
 
